@@ -206,7 +206,7 @@ pub open spec fn decoded(st: StructureTag, r: LdapResultExt) -> bool {
             match exop_val { Some(v) => last_prim(ch, ch.len() as int, 11) == Some(v@), None => last_prim(ch, ch.len() as int, 11) is None },
             match sasl_creds { Some(v) => last_prim(ch, ch.len() as int, 7) == Some(v@), None => last_prim(ch, ch.len() as int, 7) is None },
 //@ attr #[verifier::exec_allows_no_decreases_clause]
-//@ insert before "match tags.next() {"
+//@ insert loop-start 1
         proof {
             assert forall|v: Vec<String>| #[trigger] iter_seq::<String, Vec<String>>(v) == v@ by { ax_iter_seq_vec::<String>(v); }
             assert forall|a: Seq<String>, b: Seq<String>| #[trigger] strs(a + b) == strs(a) + strs(b) by { lemma_strs_concat(a, b); }
